@@ -14,7 +14,8 @@ def install_schema(reg: Registry):
     # PJS (assumed): an asset is a heap object with `name`, `id`, `type`, a back-reference list `associations`;
     # an association object has exactly two array properties; their names are modelled as the ghost-like fields
     # lname / rname (schema order) and their contents as lfield / rfield (the list objects the library wraps).
-    s.add_class(ASSET, {'name': T.str, 'id': T('int', opt=True), 'type': T.str, 'associations': List(Obj(ASSOC))})
+    s.add_class(ASSET, {'name': T.str, 'id': T('int', opt=True), 'type': T.str, 'associations': List(Obj(ASSOC)),
+                        'attack_step_nodes': List(Obj('AttackGraphNode'))})
     s.add_class(ASSOC, {'lname': T.str, 'rname': T.str, 'lfield': List(Obj(ASSET)), 'rfield': List(Obj(ASSET)), 'clsname': T.str})
     s.add_class(MODEL, {'name': T.str, 'assets': List(Obj(ASSET)), 'associations': List(Obj(ASSOC)),
                         '_type_to_association': Dict(T.str, List(Obj(ASSOC))), 'attackers': List(Obj('AttackerAttachment'))})
